@@ -50,18 +50,26 @@ func mkSampler(key []byte, r *ring.Ring, dc distCfg, mont bool) (ring.Sampler, *
 	case "ternH":
 		X = ring.Ternary{H: dc.H}
 	}
-	if dc.ViaIface {
-		s, err := ring.NewSampler(prng, r, X, mont)
+	full := r
+	raise := func(s ring.Sampler, err error) (ring.Sampler, *sampling.KeyedPRNG, error) {
+		if err == nil && dc.OverView > 0 {
+			s = s.AtLevel(full.MaxLevel())
+		}
 		return s, prng, err
+	}
+	if dc.OverView > 0 {
+		r = r.AtLevel(dc.OverView - 1)
+	}
+	if dc.ViaIface {
+		return raise(ring.NewSampler(prng, r, X, mont))
 	}
 	switch x := X.(type) {
 	case ring.Uniform:
-		return ring.NewUniformSampler(prng, r), prng, nil
+		return raise(ring.NewUniformSampler(prng, r), nil)
 	case ring.DiscreteGaussian:
-		return ring.NewGaussianSampler(prng, r, x, mont), prng, nil
+		return raise(ring.NewGaussianSampler(prng, r, x, mont), nil)
 	case ring.Ternary:
-		s, err := ring.NewTernarySampler(prng, r, x, mont)
-		return s, prng, err
+		return raise(ring.NewTernarySampler(prng, r, x, mont))
 	}
 	return nil, nil, fmt.Errorf("unknown kind")
 }
